@@ -109,6 +109,12 @@ Definition orca_parse (R : nat) (ls : list row) : res matrix :=
       if (length M =? R) && rectb R M then Ok M else ErrShape
   end.
 
+(* ORCA.py:436-437 (commit d8ad5dc): the .hess file must contain a line starting with "$end" after
+   the start of the Hessian block, otherwise CouldNotGetProperty("Hessian file was not complete");
+   `has_end` is that test, the rest of the file is parsed as before *)
+Definition orca_hess_file (has_end : bool) (R : nat) (ls : list row) : res matrix :=
+  if has_end then orca_parse R ls else ErrProperty.
+
 (* ---------------------------------------------------------------- Q-Chem ----------------- *)
 (* Blocks of 6 columns, no row/column numbers, blocks separated by two lines (blank).
    QChem.py:348-378 *)
@@ -239,7 +245,7 @@ End Layouts.
 
 Arguments zip_app {A}. Arguments blocks {A}. Arguments blocks_f {A}. Arguments unblocks {A}.
 Arguments orca_lines {A}. Arguments orca_collect {A}. Arguments orca_assemble {A}.
-Arguments orca_parse {A}. Arguments orca_block_lines {A}. Arguments accum {A}. Arguments upd {A}.
+Arguments orca_parse {A}. Arguments orca_hess_file {A}. Arguments orca_block_lines {A}. Arguments accum {A}. Arguments upd {A}.
 Arguments qchem_lines {A}. Arguments qchem_parse {A}. Arguments qchem_loop {A}.
 Arguments correct_shape {A}. Arguments rect {A}. Arguments rectb {A}. Arguments width {A}.
 Arguments all_nil {A}. Arguments is_nil {A}.
